@@ -49,7 +49,7 @@ OPEN_OR_UNCHECKED = {"open_program"}
 # file-LEVEL shapes: the CLI is the only client of ParseFile, so how the file is read (buffering, line length, line
 # endings, encoding marks, size) is exercised here and nowhere else
 _LONG = "// " + "x" * 70000 + "\n"
-_PAD = "".join("// padding line %06d %s\n" % (i, "." * 80) for i in range(3000))          # ~ 300 KiB of short lines
+_PAD = "".join("// padding line %06d %s\n" % (i, "." * 80) for i in range(900))          # ~ 90 KiB of short lines
 FILES.update({
     "longline_then_ok": _LONG + FILES["ok_hello"],
     "longline_then_type_error": _LONG + FILES["type_error"],
